@@ -11,7 +11,7 @@ import (
 
 func Run(cfg hx.Config) (*hx.Meta, error) {
 	vr := &ga.ValueRun{
-		Prop: "C02", Calls: []ga.Call{ga.CallEq, ga.CallEqC}, SupObs: "sup-eq", PoolQuick: 12, PoolThorough: 20,
+		Prop: "C02", Calls: []ga.Call{ga.CallEq, ga.CallEqC}, SupObs: "sup-eq", PoolQuick: 12, PoolThorough: 20, WithMethods: true,
 		Cases: func(idx int, t *ga.Type, vals []*ga.Val, r *hx.Rand, out *strings.Builder) {
 			for xi, x := range vals {
 				for yi, y := range vals {
